@@ -249,7 +249,7 @@ package eventbus
 
 //@ func (*EventBus).getShard
 //@   props C01 C02
-//@   requires bus != nil && BusInv(bus)
+//@   requires bus != nil && BusInv(bus) && eventType != nil
 //@   ensures [functional] result == bus.shards[shardIdx(eventType)] && result != nil
 
 //@ func PublishContext
@@ -798,6 +798,8 @@ package eventbus
 //@ event applyCall := call (*upcastRegistry).apply
 //@ event replayCall := call (*EventBus).Replay
 //@ def firstUp(r, t) ite(len(r.upcasters[t]) > 0, r.upcasters[t][0].Upcast, 0)
+//@ lockinv upcastRegistry.mu(r) [UpInv.disjoint] {C16,C17} forall t1 string, t2 string :: t1 != t2 && sarr(r.upcasters[t1]) != 0 ==> sarr(r.upcasters[t1]) != sarr(r.upcasters[t2])
+//@ lockinv upcastRegistry.mu(r) [UpInv.alloc] {C16,C17} forall t string :: wfslice(r.upcasters[t]) && (sarr(r.upcasters[t]) == 0 || allocated(sarr(r.upcasters[t])))
 //@ lockinv upcastRegistry.mu(r) [UpInv.fn] {C16,C17} forall t string, i int :: {r.upcasters[t][i]} 0 <= i && i < len(r.upcasters[t]) ==> r.upcasters[t][i].Upcast != nil
 
 //@ func (*upcastRegistry).apply
